@@ -72,6 +72,13 @@ type c12case struct {
 	// the caller flag and the flag that keeps the package path in the caller's function name are set (the call site lies
 	// in package main, whose functions have no slash in their names): presentation, no input of the termination rule
 	CallerPkg bool `json:"caller_with_package_name_flags,omitempty"`
+	// the logger was Closed (end of a phase, a deferred Close in a helper) before the call: its writers are what they were
+	AfterClose bool `json:"logger_closed_before_the_call,omitempty"`
+	// a nil writer was handed to SetWriter / SetErrorWriter after the real ones (an optional sink that is not configured)
+	NilWriter bool `json:"nil_writer_set_after_the_real_ones,omitempty"`
+	// package entry points: the default logger is a CHILD whose level is the one of the cell while its root sits at the
+	// opposite end (Off when the child admits, Always when it does not)
+	DefChild bool `json:"default_logger_is_a_child_of_a_root_at_the_opposite_level,omitempty"`
 }
 
 // muteW takes nothing and reports no error either.
@@ -274,6 +281,22 @@ func c12enumerate() []c12case {
 			d++
 		}
 	}
+	// round 11: a logger that was Closed before the call, a nil writer set after the real ones; package entry points with a
+	// child as the default logger
+	for _, b := range base {
+		if b.Format == "logfmt" && b.Admit {
+			x, y := b, b
+			x.AfterClose, y.NilWriter = true, true
+			out = append(out, x, y)
+		}
+	}
+	for _, b := range base {
+		if b.Format == "json" && strings.HasPrefix(b.Entry, "pkg.") {
+			x := b
+			x.DefChild = true
+			out = append(out, x)
+		}
+	}
 	return out
 }
 
@@ -359,6 +382,12 @@ func c12exec(c *Ctx, out string) {
 	if cs.Kind == "child" {
 		lg = lg.New("kid")
 	}
+	var defRoot *slog.Entry
+	if cs.DefChild {
+		defRoot = lg
+		lg = lg.New("default-child")
+		lgL = lg
+	}
 	lg.SetWriter(f).SetErrorWriter(f)
 	if cs.FailingWriter {
 		lg.SetWriter(failAfterStore{f}).SetErrorWriter(failAfterStore{f})
@@ -401,6 +430,25 @@ func c12exec(c *Ctx, out string) {
 		lg.SetLevel(slog.PanicLevel) // admits Panic only: a Fatal record is below the threshold
 	default:
 		lg.SetLevel(slog.OffLevel)
+	}
+	if defRoot != nil {
+		if cs.Admit {
+			defRoot.SetLevel(slog.OffLevel)
+		} else {
+			defRoot.SetLevel(slog.AlwaysLevel)
+		}
+		defRoot.SetWriter(f).SetErrorWriter(f)
+	}
+	if cs.NilWriter {
+		lg.SetWriter(nil).SetErrorWriter(nil)
+	}
+	if cs.AfterClose {
+		// the logger keeps the standard devices and owns one more destination (a file of its own); then it is Closed.
+		// Whatever Close releases, the standard devices are not its to take away: the record is on the process's stderr
+		aux, _ := os.OpenFile(out+".aux", os.O_CREATE|os.O_WRONLY|os.O_TRUNC, 0o644)
+		lg.ResetWriters()
+		lg.AddWriter(aux).AddErrorWriter(aux)
+		lg.Close()
 	}
 	if cs.LevelWriterGone {
 		decoy := failAfterStore{f} // never written to: it is removed again
@@ -579,6 +627,16 @@ func c12matrix(c *Ctx) {
 		if b, err := os.ReadFile(base + ".res"); err == nil {
 			res = &c12result{}
 			_ = json.Unmarshal(b, res)
+		}
+		if cs.AfterClose {
+			// the record is looked for on the process's own stderr / stdout (the standard devices of the closed logger)
+			rec = nil
+			for _, ln := range strings.SplitAfter(se, "\n") {
+				if strings.Contains(ln, "#id42#") && !strings.HasPrefix(ln, "panic:") && !strings.Contains(ln, "goroutine ") {
+					rec = append(rec, ln...)
+				}
+			}
+			os.Remove(base + ".aux")
 		}
 		terminate := cs.Admit && !cs.NoInt && (!cs.Testing || cs.Always)
 		whole := len(rec) > 0 && rec[len(rec)-1] == '\n' && bytes.Contains(rec, []byte("#id42#")) && bytes.Count(rec, []byte("#id42#")) == 1
